@@ -401,8 +401,8 @@ theorem renderRawVariable_seg (cx : RCtx R) (hg : cx.guardIndexRead = true) (st 
 /-! ### `{math:e}` -/
 
 theorem vars_reloc {k n : Nat} : ∀ m,
-    (∀ (a b : List (Item R)), Qentem.Expr.sizeItems a ≤ m → Qentem.Expr.RelItems k n a b → itemsVars b = []) ∧
-    (∀ (x y : Qentem.Expr.Operand R), x.size ≤ m → Qentem.Expr.RelOperand k n x y → operandVars y = []) := by
+    (∀ (a b : List (Item R)), Qentem.Expr.sizeItems a ≤ m → Qentem.Expr.RelItems Qentem.Expr.NoV k n a b → itemsVars b = []) ∧
+    (∀ (x y : Qentem.Expr.Operand R), x.size ≤ m → Qentem.Expr.RelOperand Qentem.Expr.NoV k n x y → operandVars y = []) := by
   intro m
   induction m with
   | zero =>
@@ -415,6 +415,7 @@ theorem vars_reloc {k n : Nat} : ∀ m,
       cases hxy with
       | num _ => rfl
       | text _ _ _ => rfl
+      | var _ _ h => exact h.elim
       | sub a b _ => simp [Qentem.Expr.Operand.size] at hs
   | succ m ih =>
     refine ⟨?_, ?_⟩
@@ -429,6 +430,7 @@ theorem vars_reloc {k n : Nat} : ∀ m,
       cases hxy with
       | num _ => rfl
       | text _ _ _ => rfl
+      | var _ _ h => exact h.elim
       | sub a b hab =>
         simp only [Qentem.Expr.Operand.size] at hs
         simp only [operandVars]
@@ -507,7 +509,7 @@ theorem renderMath_seg (cx : RCtx R) (cfg : ScanCfg R) (hrn : cfg.readNum = cx.r
         ({ content := cx.content, lookup := lk, readNum := cx.readNum } : Env R) ((B ++ txt).length + 6) :=
       fun lk => ⟨rfl, hreloc.slice⟩
     have hlen : (specEnv cx e).content.length = e.length + 1 := by simp [specEnv]
-    have hev := fun lk => Qentem.Expr.evaluateTop_reloc (hre lk) true items0 items' (by rw [hlen]; exact hrel)
+    have hev := fun lk => Qentem.Expr.evaluateTop_reloc (hre lk) (Qentem.Expr.relLookup_noV _ _) true items0 items' (by rw [hlen]; exact hrel)
     simp only [renderMath, hsl, evalExprs, ← hemp, Bool.false_eq_true, if_false, hvars, resolveVars, bind,
       Except.bind, expSeg, hspec, (hev _).1]
     cases hv : Qentem.Expr.evaluateTop (specEnv cx e) true items0 with
